@@ -54,6 +54,8 @@ var guardTable = []guardSpec{
 	{"multiparty.(GaloisKeyGenProtocol).AggregateShares", []string{"share1.GaloisElement", "share2.GaloisElement"}, []token.Token{token.NEQ}, []string{"C14"}, "shares for different Galois elements must not be combined"},
 	{"multiparty.(EvaluationKeyGenProtocol).AggregateShares", []string{"share1.LevelQ()", "share2.LevelQ()"}, []token.Token{token.NEQ}, []string{"C14"}, "shares at different levels must not be combined"},
 	{"multiparty.(EvaluationKeyGenProtocol).AggregateShares", []string{"share1.BaseTwoDecomposition", "share2.BaseTwoDecomposition"}, []token.Token{token.NEQ}, []string{"C14"}, "shares with different digit decompositions must not be combined (property: 'mismatched shares (different Galois element, level or decomposition) are rejected')"},
+	{"multiparty.(EvaluationKeyGenProtocol).GenEvaluationKey", []string{"share.BaseTwoDecomposition", "evk.BaseTwoDecomposition"}, []token.Token{token.NEQ}, []string{"C14"}, "an aggregated share in another digit basis than the receiving key has the same shape for close bases: it must be refused, not copied under the key's tag"},
+	{"multiparty.(EvaluationKeyGenProtocol).GenEvaluationKey", []string{"evk.Degree()", "1"}, []token.Token{token.NEQ}, []string{"C14"}, "a compressed receiver has one component per digit: writing the CRP into component 1 must be refused with the error result, not a panic"},
 	{"multiparty.(EvaluationKeyGenProtocol).GenShare", []string{"BaseTwoDecompositionVectorSize()"}, nil, []string{"C14"}, "share and CRP must have the same digit decomposition"},
 }
 
